@@ -34,19 +34,24 @@ Values are `Nat`s, `0` is the empty value of `T`; errors are `Nat`s, `0` is `nil
 namespace UtilModel.RefCount
 open UtilModel
 
+instance rcHashIS : Hashable Chain.IS := ⟨fun x => match x with
+  | .waiting => 11 | .draining => 12 | .running => 13 | .returned => 14 | .closed => 15⟩
+instance rcHashInst : Hashable Chain.Inst :=
+  ⟨fun x => mixHash (hash x.pred) (mixHash (hash x.st) (hash x.cancelled))⟩
+
 /-- kind of callback passed to `AddRef`: `nil`, a non-nil function that logs nothing, a recording
 function (logs `cbin refcb …`), or the internal callback of a consumer (`Access`, `Wait…`). -/
 inductive CbKind where
   | nil | quiet | rcd | hook
-deriving DecidableEq, Repr
+deriving DecidableEq, Repr, Hashable
 
 inductive Pc where
   | inv | done | retd
-deriving DecidableEq, Repr
+deriving DecidableEq, Repr, Hashable
 
 inductive RelPc where
   | inv | cs | done | retd
-deriving DecidableEq, Repr
+deriving DecidableEq, Repr, Hashable
 
 /-- one harness actor = one API call, numbered in invocation (log) order. A reference is named by
 the id of the `AddRef` call that created it. -/
@@ -59,7 +64,7 @@ inductive TS where
   | rel (r : Nat) (pc : RelPc)
   /-- `SetContext(c)` (`clear`: called through `ClearContext`) ; `upd` = return value -/
   | ctx (c : Nat) (clear : Bool) (pc : Pc) (upd : Bool)
-deriving DecidableEq, Repr
+deriving DecidableEq, Repr, Hashable
 
 /-- a user-callback entry performed inside a critical section -/
 inductive CbItem where
@@ -67,11 +72,11 @@ inductive CbItem where
   | refcb (r : Nat) (vis : Bool) (res : Bool) (v e : Nat)
   /-- release function of resolver call `i` (invocation `k`); `seen` = `target.GetValue()` read inside -/
   | rel (i k seen : Nat)
-deriving DecidableEq, Repr
+deriving DecidableEq, Repr, Hashable
 
 inductive Owner where
   | thr (a : Nat) | call (i : Nat) | other
-deriving DecidableEq, Repr
+deriving DecidableEq, Repr, Hashable
 
 /-- one `resolve` goroutine -/
 structure Call where
@@ -83,7 +88,7 @@ structure Call where
   fin : Bool := false                  -- final critical section done (or skipped: drained)
   stored : Bool := false               -- ghost: its result was stored
   released : Bool := false             -- ghost: its release function has been called
-deriving DecidableEq, Repr
+deriving DecidableEq, Repr, Hashable
 
 structure St where
   cfgd : Bool := false
@@ -108,7 +113,7 @@ structure St where
   pend : List (List CbItem) := []
   owner : Owner := .other
   panic : Bool := false
-deriving DecidableEq, Repr
+deriving DecidableEq, Repr, Hashable
 
 /-! ## observables -/
 
@@ -130,7 +135,7 @@ inductive Obs where
   | invHook (a : Nat)
   | probe (v e : Nat)
   | quiesce (B : List Nat)
-deriving DecidableEq, Repr
+deriving DecidableEq, Repr, Hashable
 
 inductive Ev where
   | cfg (keep : Bool) (ctx : Nat) (tgt : Bool)
@@ -159,7 +164,7 @@ inductive Ev where
   | selfRelCS (a : Nat)
   | probe (v e : Nat)
   | quiesce (B : List Nat)
-deriving DecidableEq, Repr
+deriving DecidableEq, Repr, Hashable
 
 def Ev.obs : Ev → Option Obs
   | .cfg k c t => some (.cfg k c t)
